@@ -260,6 +260,11 @@ def r04d(ctx):
         for st in sets:
             ups = [c for c in walk_no_nested(g2.node) if isinstance(c, ast.Call) and call_name(c) in ("set_media_type", "add_full_path") and len(c.args) >= 2
                    and repo.fold(c.args[0], g2.module) == "/" and ast.unparse(c.args[1]) == ast.unparse(st.value)]
+            # … through the manifest part of the document itself (`self.manifest` parses it when nobody has yet), and on every path the store runs on:
+            # an update that is only made when the manifest happens to be cached already leaves a fresh or just opened document with two types
+            store_guards = {ast.unparse(t) + str(pol) for t, pol in structural_guards(st)}
+            ups = [c for c in ups if isinstance(c.func, ast.Attribute) and canon(g2, c.func.value).replace(" ", "") == "self.manifest"
+                   and all(ast.unparse(t) + str(pol) in store_guards for t, pol in structural_guards(c))]
             okm = bool(ups)
             ctx.instance("R04d", f"{g2.file}:{g2.ident}", f"`{norm(st, 40)}` is paired with the root entry of the manifest", ok=okm, nontrivial=True, line=st.lineno)
             if not okm:
